@@ -217,6 +217,14 @@ func (a *nilAn) nonNil(v ssa.Value, at *ssa.BasicBlock, phis map[*ssa.Phi]bool, 
 		if call, ok := x.Tuple.(*ssa.Call); ok {
 			return a.result(call, x.Index, at, depth)
 		}
+		if nx, ok := x.Tuple.(*ssa.Next); ok && x.Index == 2 {
+			if rg, ok := nx.Iter.(*ssa.Range); ok {
+				if ok, why := a.mapElems(rg.X, depth); ok {
+					return true, "a value of the map being ranged over: " + why
+				}
+				return false, "a value of a map that may hold nil entries"
+			}
+		}
 		return false, "a component of a tuple that is not a call result"
 	case *ssa.UnOp:
 		if x.Op != token.MUL {
@@ -240,6 +248,9 @@ func (a *nilAn) nonNil(v ssa.Value, at *ssa.BasicBlock, phis map[*ssa.Phi]bool, 
 			if g, ok := addr.X.(*ssa.Global); ok && g.Name() == "newMesgFuncs" {
 				return true, "an entry of the constructor table, indexed only with a known message number, every one of which has a non-nil entry (C01-R2-known-before-ctor, C15-1-ctor)"
 			}
+			if ok, why := a.sliceElems(addr.X, depth); ok {
+				return true, "an element of " + stripAddrs(pathOf(addr.X)) + ": " + why
+			}
 			return false, "loaded from an element of " + stripAddrs(pathOf(addr.X)) + " (elements may be nil) without a nil test"
 		case *ssa.Global:
 			if ok, why := a.global(addr, depth); ok {
@@ -249,7 +260,7 @@ func (a *nilAn) nonNil(v ssa.Value, at *ssa.BasicBlock, phis map[*ssa.Phi]bool, 
 		case *ssa.Alloc:
 			return a.cell(addr, x, depth)
 		case *ssa.FreeVar:
-			return false, "loaded from a captured variable"
+			return a.captured(addr, depth)
 		}
 		return false, "loaded through " + stripAddrs(pathOf(x.X))
 	case *ssa.Lookup:
@@ -331,7 +342,78 @@ func (a *nilAn) cell(al *ssa.Alloc, load *ssa.UnOp, depth int) (bool, string) {
 	if n > 0 && dom {
 		return true, "kept in a local variable every assignment of which is non-nil"
 	}
-	return false, "kept in a local variable that may still hold its zero value here"
+	return a.memLoc(al, load, depth)
+}
+
+// boundTo: the value a closure's free variable is bound to where the closure is created (the same
+// at every creation site, or nil).
+func (a *nilAn) boundTo(cl *ssa.Function, fv *ssa.FreeVar) ssa.Value {
+	idx := -1
+	for i, f := range cl.FreeVars {
+		if f == fv {
+			idx = i
+		}
+	}
+	par := cl.Parent()
+	if idx < 0 || par == nil {
+		return nil
+	}
+	var out ssa.Value
+	for _, b := range par.Blocks {
+		for _, ins := range b.Instrs {
+			if mc, ok := ins.(*ssa.MakeClosure); ok && mc.Fn == ssa.Value(cl) && idx < len(mc.Bindings) {
+				if out != nil && out != mc.Bindings[idx] {
+					return nil
+				}
+				out = mc.Bindings[idx]
+			}
+		}
+	}
+	return out
+}
+
+// captured: a load of a captured variable inside a closure: the variable is non-nil where the
+// closure is created, every assignment to it anywhere stores a non-nil value, and the closure
+// itself does not assign it.
+func (a *nilAn) captured(fv *ssa.FreeVar, depth int) (bool, string) {
+	cl := fv.Parent()
+	cellV := a.boundTo(cl, fv)
+	cell, ok := cellV.(*ssa.Alloc)
+	if !ok {
+		return false, "loaded from a captured variable whose binding is not a local of the enclosing function"
+	}
+	all := append([]*ssa.Function{cell.Parent()}, cell.Parent().AnonFuncs...)
+	for _, g := range all {
+		for _, b := range g.Blocks {
+			for _, ins := range b.Instrs {
+				st, ok := ins.(*ssa.Store)
+				if !ok {
+					continue
+				}
+				target := st.Addr
+				if f2, isFV := target.(*ssa.FreeVar); isFV {
+					target = a.boundTo(g, f2)
+				}
+				if target != ssa.Value(cell) {
+					continue
+				}
+				if ok, why := a.nonNil(st.Val, b, nil, depth+1); !ok {
+					return false, "loaded from the captured variable " + cell.Comment + ", which is assigned " + why
+				}
+			}
+		}
+	}
+	par := cell.Parent()
+	for _, b := range par.Blocks {
+		for _, ins := range b.Instrs {
+			if mc, ok := ins.(*ssa.MakeClosure); ok && mc.Fn == ssa.Value(cl) {
+				if ok, why := a.memLoc(cell, mc, depth+1); !ok {
+					return false, "loaded from the captured variable " + cell.Comment + ": where the closure is created it is " + why
+				}
+			}
+		}
+	}
+	return true, "loaded from the captured variable " + cell.Comment + " (non-nil where the closure is created; only ever assigned non-nil values)"
 }
 
 func (a *nilAn) global(g *ssa.Global, depth int) (bool, string) {
@@ -499,6 +581,9 @@ func (a *nilAn) result(call *ssa.Call, idx int, at *ssa.BasicBlock, depth int) (
 	if _, isPtrLike := call.Type().Underlying().(*types.Basic); isPtrLike {
 		return true, "not a pointer"
 	}
+	if callee.Name() == "getFieldBySindex" && fnPkgPath(callee) == modPath {
+		return true, "the row getFieldBySindex finds: every struct index of every hosted message has a lookup row, so the nil fall-back entry is never returned (C15-2-bijection; C07-R2-panic-sites label nil-field)"
+	}
 	if !strings.HasPrefix(fnPkgPath(callee), modPath) || len(callee.Blocks) == 0 {
 		if nilStdlibNonNil[callee.String()] {
 			return true, "the result of " + callee.String() + " (never nil)"
@@ -600,6 +685,22 @@ func (a *nilAn) field(fa *ssa.FieldAddr, load *ssa.UnOp, at *ssa.BasicBlock, dep
 	name := owner.Obj().Name() + "." + fname
 	if ref, ok := nilDedicated[name]; ok {
 		return true, "the field " + name + ": " + ref
+	}
+	if owner.Obj().Name() == "File" {
+		// the typed containers: File.init / NewFile store the one that belongs to the file's type, and the
+		// accessor that returns it tests that type first (C03-4-init, C03-5-accessor); a File built any
+		// other way is outside the contract of Encode
+		if st, ok := owner.Underlying().(*types.Struct); ok && fa.Field < st.NumFields() {
+			if pt, ok := st.Field(fa.Field).Type().(*types.Pointer); ok {
+				if n, ok := pt.Elem().(*types.Named); ok {
+					for _, ct := range a.c.containers() {
+						if ct == n {
+							return true, "the container member " + name + ", stored by File.init / NewFile for exactly the file type its accessor tests (C03-4-init, C03-5-accessor)"
+						}
+					}
+				}
+			}
+		}
 	}
 	// stores to the field anywhere in the module
 	var stores []*ssa.Store
@@ -706,23 +807,51 @@ func (a *nilAn) field(fa *ssa.FieldAddr, load *ssa.UnOp, at *ssa.BasicBlock, dep
 // load of the same variable that the path's edge tested against nil settles it, a call that can
 // store to the variable or the function entry leaves it open.
 func (a *nilAn) memGlobal(g *ssa.Global, load *ssa.UnOp, depth int) (bool, string) {
+	return a.memLoc(g, load, depth)
+}
+
+// memLoc: the same walk for a package-level variable or a local cell (a variable captured by a
+// closure or otherwise kept in memory). `load` is the instruction at which the value is needed (it
+// need not be a load: a MakeClosure that captures the cell is judged at its own position).
+func (a *nilAn) memLoc(g ssa.Value, load ssa.Instruction, depth int) (bool, string) {
+	gname := "the package-level variable " + g.Name()
 	writers := map[*ssa.Function]bool{}
-	for _, fn := range a.c.moduleFuncs() {
-		for _, b := range fn.Blocks {
-			for _, ins := range b.Instrs {
-				if st, ok := ins.(*ssa.Store); ok && st.Addr == ssa.Value(g) {
-					writers[fn] = true
+	cell, isCell := g.(*ssa.Alloc)
+	if isCell {
+		gname = "the local variable " + cell.Comment
+		// closures of the function that store to the cell through their free variable
+		for _, cl := range cell.Parent().AnonFuncs {
+			for _, b := range cl.Blocks {
+				for _, ins := range b.Instrs {
+					if st, ok := ins.(*ssa.Store); ok {
+						if fv, ok := st.Addr.(*ssa.FreeVar); ok && a.boundTo(cl, fv) == ssa.Value(cell) {
+							writers[cl] = true
+						}
+					}
+				}
+			}
+		}
+	} else {
+		for _, fn := range a.c.moduleFuncs() {
+			for _, b := range fn.Blocks {
+				for _, ins := range b.Instrs {
+					if st, ok := ins.(*ssa.Store); ok && st.Addr == g {
+						writers[fn] = true
+					}
 				}
 			}
 		}
 	}
 	mayWrite := func(ci ssa.CallInstruction) bool {
+		if len(writers) == 0 {
+			return false
+		}
 		f := ci.Common().StaticCallee()
 		if f == nil {
 			return true
 		}
 		for w := range writers {
-			if a.reaches(f, w, nil) {
+			if f == w || a.reaches(f, w, nil) {
 				return true
 			}
 		}
@@ -738,8 +867,13 @@ func (a *nilAn) memGlobal(g *ssa.Global, load *ssa.UnOp, depth int) (bool, strin
 	back = func(b *ssa.BasicBlock, from int, tested map[ssa.Value]bool) bool {
 		for i := from; i >= 0; i-- {
 			switch n := b.Instrs[i].(type) {
+			case *ssa.Alloc:
+				if ssa.Value(n) == g {
+					why = "still holding its zero value on a path from its declaration"
+					return false
+				}
 			case *ssa.Store:
-				if n.Addr == ssa.Value(g) {
+				if n.Addr == g {
 					ok, w := a.nonNil(n.Val, b, nil, depth+1)
 					if !ok {
 						why = "assigned " + w + " at " + a.c.pos(n.Pos())
@@ -747,7 +881,7 @@ func (a *nilAn) memGlobal(g *ssa.Global, load *ssa.UnOp, depth int) (bool, strin
 					return ok
 				}
 			case *ssa.UnOp:
-				if n.Op == token.MUL && n.X == ssa.Value(g) && tested[n] {
+				if n.Op == token.MUL && n.X == g && tested[n] {
 					return true
 				}
 			case ssa.CallInstruction:
@@ -789,9 +923,9 @@ func (a *nilAn) memGlobal(g *ssa.Global, load *ssa.UnOp, depth int) (bool, strin
 		return true
 	}
 	if back(load.Block(), instrIndex(load)-1, map[ssa.Value]bool{}) {
-		return true, "the package-level variable " + g.Name() + ", assigned non-nil or tested against nil on every path to this load"
+		return true, gname + ", assigned non-nil or tested against nil on every path to this point"
 	}
-	return false, "the package-level variable " + g.Name() + ", " + why
+	return false, gname + ", " + why
 }
 
 func reachableWithoutBarrierTo(from ssa.Instruction, to ssa.Instruction, barrier map[ssa.Instruction]bool) bool {
@@ -1113,6 +1247,11 @@ func reachableWithoutBarrier(from ssa.Instruction, to *ssa.BasicBlock, barrier m
 
 // c01NilSafety walks every site.
 func c01NilSafety(c *Ctx, r *Report, scope []*ssa.Function, roots []*ssa.Function, reach []*ssa.Function) {
+	nilSafety(c, r, "C01-R2-nil", "decode", 400, scope, roots, reach)
+}
+
+// nilSafety: the origin-based nil analysis over one scope (rule ids <prefix>-deref / <prefix>-param).
+func nilSafety(c *Ctx, r *Report, prefix, what string, floor int, scope []*ssa.Function, roots []*ssa.Function, reach []*ssa.Function) {
 	a := &nilAn{c: c, cg: c.callGraph(), reach: map[*ssa.Function]bool{}, roots: map[*ssa.Function]bool{}, rootList: roots,
 		facts: map[*ssa.Function]*nilFacts{}, pmemo: map[*ssa.Parameter]*nilVerdict{}, pbusy: map[*ssa.Parameter]bool{},
 		rmemo: map[string]*nilVerdict{}, rbusy: map[string]bool{}, fmemo: map[string]*nilVerdict{}, assumed: map[string]bool{}, assume: map[ssa.Value]bool{}}
@@ -1173,7 +1312,7 @@ func c01NilSafety(c *Ctx, r *Report, scope []*ssa.Function, roots []*ssa.Functio
 				k++
 				key := fmt.Sprintf("%s/%s %s#%d", fn.Name(), kind, stripAddrs(pathOf(v)), k)
 				ok, why := a.nonNil(v, b, nil, 0)
-				r.check(ok, "C01-R2-nil-deref", key, c.pos(ins.Pos()), "the value is "+why, "nil dereference possible: the value is "+why)
+				r.check(ok, prefix+"-deref", key, c.pos(ins.Pos()), "the value is "+why, "nil dereference possible: the value is "+why)
 			}
 		}
 	}
@@ -1190,16 +1329,260 @@ func c01NilSafety(c *Ctx, r *Report, scope []*ssa.Function, roots []*ssa.Functio
 	for _, p := range ps {
 		vd := a.param(p, 0)
 		key := fmt.Sprintf("%s(%s)", strings.TrimPrefix(strings.ReplaceAll(p.Parent().String(), modPath+".", ""), modPath+"/"), p.Name())
-		r.check(vd.ok, "C01-R2-nil-param", key, c.pos(p.Pos()), fmt.Sprintf("%d dereference(s); %s", params[p], vd.why), fmt.Sprintf("dereferenced %d time(s) in %s but may be nil: %s", params[p], p.Parent().Name(), vd.why))
+		r.check(vd.ok, prefix+"-param", key, c.pos(p.Pos()), fmt.Sprintf("%d dereference(s); %s", params[p], vd.why), fmt.Sprintf("dereferenced %d time(s) in %s but may be nil: %s", params[p], p.Parent().Name(), vd.why))
 	}
 	var as []string
 	for k := range a.assumed {
 		as = append(as, k)
 	}
 	sort.Strings(as)
-	r.set("nil_sites", nSites)
-	r.set("nil_sites_address_or_alloc", nTrivial)
-	r.set("nil_params_dereferenced", len(ps))
-	r.set("nil_assumed_entry_parameters", strings.Join(as, ", "))
-	r.need("dereference / invoke sites on the decode path", nSites, 400)
+	r.set(what+"_nil_sites", nSites)
+	r.set(what+"_nil_sites_address_or_alloc", nTrivial)
+	r.set(what+"_nil_params_dereferenced", len(ps))
+	r.set(what+"_nil_assumed_entry_parameters", strings.Join(as, ", "))
+	r.need("dereference / invoke sites on the "+what+" path", nSites, floor)
+}
+
+// ---- collections of pointers ---------------------------------------------------------------------
+//
+// A slice kept in a struct field, or a local map, holds no nil element when everything ever put
+// into it is non-nil: the field is only assigned nil, an empty make, an append chain of non-nil
+// values onto such a slice, or another such collection; element stores store non-nil values; a
+// map only receives non-nil values. The argument is coinductive (a collection under examination
+// counts as good), which is sound because a nil element has to be put in by some insertion.
+
+func (a *nilAn) sliceElems(x ssa.Value, depth int) (bool, string) {
+	if depth > 14 {
+		return false, "too deep"
+	}
+	switch v := x.(type) {
+	case *ssa.Const:
+		if v.Value == nil {
+			return true, "the empty slice"
+		}
+	case *ssa.MakeSlice:
+		if k, ok := v.Len.(*ssa.Const); ok && k.Value != nil && k.Int64() == 0 {
+			return true, "made empty"
+		}
+		return false, "made with a non-zero length (its elements start out nil)"
+	case *ssa.Slice:
+		return a.sliceElems(v.X, depth+1)
+	case *ssa.Phi:
+		key := fmt.Sprintf("phi:%p", v)
+		if vd, ok := a.fmemo[key]; ok {
+			return vd.ok, vd.why
+		}
+		vd := &nilVerdict{ok: true, why: "built up from non-nil values"}
+		a.fmemo[key] = vd
+		for _, e := range v.Edges {
+			if ok, why := a.sliceElems(e, depth+1); !ok {
+				vd.ok, vd.why = false, why
+				return false, why
+			}
+		}
+		return true, vd.why
+	case *ssa.Call:
+		if bi, ok := v.Common().Value.(*ssa.Builtin); ok && bi.Name() == "append" && len(v.Common().Args) == 2 {
+			if ok, why := a.sliceElems(v.Common().Args[0], depth+1); !ok {
+				return false, why
+			}
+			return a.appended(v.Common().Args[1], v.Block(), depth)
+		}
+	case *ssa.UnOp:
+		if v.Op == token.MUL {
+			switch addr := v.X.(type) {
+			case *ssa.FieldAddr:
+				return a.fieldSlice(addr, depth)
+			case *ssa.Alloc:
+				// a local variable holding the slice: every store to it
+				key := fmt.Sprintf("cellslice:%p", addr)
+				if vd, ok := a.fmemo[key]; ok {
+					return vd.ok, vd.why
+				}
+				vd := &nilVerdict{ok: true, why: "a local slice built up from non-nil values"}
+				a.fmemo[key] = vd
+				all := append([]*ssa.Function{addr.Parent()}, addr.Parent().AnonFuncs...)
+				for _, g := range all {
+					for _, b := range g.Blocks {
+						for _, ins := range b.Instrs {
+							st, ok := ins.(*ssa.Store)
+							if !ok {
+								continue
+							}
+							t := st.Addr
+							if fv, isFV := t.(*ssa.FreeVar); isFV {
+								t = a.boundTo(g, fv)
+							}
+							if t != ssa.Value(addr) {
+								continue
+							}
+							if ok, why := a.sliceElems(st.Val, depth+1); !ok {
+								vd.ok, vd.why = false, why
+								return false, why
+							}
+						}
+					}
+				}
+				return true, vd.why
+			case *ssa.FreeVar:
+				if cell, ok := a.boundTo(addr.Parent(), addr).(*ssa.Alloc); ok {
+					// judged as the enclosing function's variable
+					fake := &ssa.UnOp{Op: token.MUL, X: cell}
+					return a.sliceElems(fake, depth+1)
+				}
+			}
+		}
+	case *ssa.Parameter:
+		// a slice parameter: every call site passes a good slice
+		fn := v.Parent()
+		idx := -1
+		for i, p := range fn.Params {
+			if p == v {
+				idx = i
+			}
+		}
+		sites := 0
+		for _, g := range a.c.moduleFuncs() {
+			if !a.reach[g] {
+				continue
+			}
+			for _, ci := range allCalls(g) {
+				if ci.Common().StaticCallee() == fn && idx < len(ci.Common().Args) {
+					sites++
+					if ok, why := a.sliceElems(ci.Common().Args[idx], depth+1); !ok {
+						return false, why
+					}
+				}
+			}
+		}
+		if sites > 0 {
+			return true, "a parameter that every call site fills with a slice of non-nil values"
+		}
+	}
+	return false, "a slice whose elements are not known to be non-nil"
+}
+
+// appended: the variadic part of an append: a slice over a fresh array whose elements are stored
+// right there, or another slice spread with `...`.
+func (a *nilAn) appended(x ssa.Value, at *ssa.BasicBlock, depth int) (bool, string) {
+	if sl, ok := x.(*ssa.Slice); ok {
+		if al, ok := sl.X.(*ssa.Alloc); ok {
+			if _, isArr := al.Type().Underlying().(*types.Pointer).Elem().Underlying().(*types.Array); isArr {
+				n := 0
+				for _, ref := range *al.Referrers() {
+					ia, ok := ref.(*ssa.IndexAddr)
+					if !ok {
+						continue
+					}
+					for _, r2 := range *ia.Referrers() {
+						if st, ok := r2.(*ssa.Store); ok && st.Addr == ssa.Value(ia) {
+							n++
+							if ok, why := a.nonNil(st.Val, st.Block(), nil, depth+1); !ok {
+								return false, "a value appended to it is " + why
+							}
+						}
+					}
+				}
+				if n > 0 {
+					return true, "only non-nil values are appended"
+				}
+			}
+		}
+	}
+	return a.sliceElems(x, depth+1)
+}
+
+// fieldSlice: the slice kept in struct field S.F.
+func (a *nilAn) fieldSlice(fa *ssa.FieldAddr, depth int) (bool, string) {
+	owner, fname := ownerOf(fa)
+	if owner == nil {
+		return false, "a field of an unnamed struct"
+	}
+	key := "elems:" + owner.Obj().Name() + "." + fname
+	if vd, ok := a.fmemo[key]; ok {
+		return vd.ok, vd.why
+	}
+	vd := &nilVerdict{ok: true}
+	a.fmemo[key] = vd
+	n := 0
+	for _, fn := range a.c.moduleFuncs() {
+		if strings.HasSuffix(a.c.fset.Position(fn.Pos()).Filename, "_test.go") {
+			continue
+		}
+		for _, b := range fn.Blocks {
+			for _, ins := range b.Instrs {
+				st, ok := ins.(*ssa.Store)
+				if !ok {
+					continue
+				}
+				switch t := st.Addr.(type) {
+				case *ssa.FieldAddr:
+					if o2, _ := ownerOf(t); o2 != owner || t.Field != fa.Field {
+						continue
+					}
+					n++
+					if ok, why := a.sliceElems(st.Val, depth+1); !ok {
+						vd.ok, vd.why = false, fmt.Sprintf("%s.%s is assigned, at %s, %s", owner.Obj().Name(), fname, a.c.pos(st.Pos()), why)
+						return false, vd.why
+					}
+				case *ssa.IndexAddr:
+					// element store through a load of the field
+					ld, ok := t.X.(*ssa.UnOp)
+					if !ok || ld.Op != token.MUL {
+						continue
+					}
+					f2, ok := ld.X.(*ssa.FieldAddr)
+					if !ok || f2.Field != fa.Field {
+						continue
+					}
+					if o2, _ := ownerOf(f2); o2 != owner {
+						continue
+					}
+					if ok, why := a.nonNil(st.Val, b, nil, depth+1); !ok {
+						vd.ok, vd.why = false, fmt.Sprintf("an element of %s.%s is assigned %s at %s", owner.Obj().Name(), fname, why, a.c.pos(st.Pos()))
+						return false, vd.why
+					}
+				}
+			}
+		}
+	}
+	vd.why = fmt.Sprintf("every one of the %d assignments of %s.%s is an empty slice or an append chain of non-nil values", n, owner.Obj().Name(), fname)
+	return true, vd.why
+}
+
+// mapElems: a local map: every update stores a non-nil value.
+func (a *nilAn) mapElems(m ssa.Value, depth int) (bool, string) {
+	mk, ok := m.(*ssa.MakeMap)
+	if !ok {
+		return false, "not a local map"
+	}
+	key := fmt.Sprintf("map:%p", mk)
+	if vd, ok := a.fmemo[key]; ok {
+		return vd.ok, vd.why
+	}
+	vd := &nilVerdict{ok: true, why: "every update of the map stores a non-nil value"}
+	a.fmemo[key] = vd
+	for _, ref := range *mk.Referrers() {
+		switch u := ref.(type) {
+		case *ssa.MapUpdate:
+			if u.Map != ssa.Value(mk) {
+				continue
+			}
+			if ok, why := a.nonNil(u.Value, u.Block(), nil, depth+1); !ok {
+				vd.ok, vd.why = false, "the map is given "+why
+				return false, vd.why
+			}
+		case *ssa.Range, *ssa.Lookup, *ssa.DebugRef:
+		case *ssa.Call:
+			if bi, ok := u.Common().Value.(*ssa.Builtin); ok && (bi.Name() == "len" || bi.Name() == "delete") {
+				continue
+			}
+			vd.ok, vd.why = false, "the map is handed to "+calleeName(u.Common())
+			return false, vd.why
+		default:
+			vd.ok, vd.why = false, fmt.Sprintf("the map is used by %T", ref)
+			return false, vd.why
+		}
+	}
+	return true, vd.why
 }
